@@ -334,15 +334,15 @@ def _export_eval(shape, shape_t, dag, w, f, val):
 
 
 def _has_binder(t):
+    """reference terms are (op, args, payload) tuples"""
     stack = [t]
     while stack:
         x = stack.pop()
-        if getattr(x, "op", None) in ("FORALL", "EXISTS"):
+        if not (isinstance(x, tuple) and len(x) == 3 and isinstance(x[0], str)):
+            continue
+        if x[0] in ("FORALL", "EXISTS"):
             return True
-        stack.extend(getattr(x, "args", ()) or ())
-        p_ = getattr(x, "payload", None)
-        if hasattr(p_, "op"):
-            stack.append(p_)
+        stack.extend(x[1] or ())
     return False
 
 
@@ -615,10 +615,11 @@ def _import_job(job):
     name, text, expect = job[:3]
     ref_text = job[3] if len(job) > 3 and job[3] else text      # the same script in standard spelling (pySMT extensions)
     reserialise = job[4] if len(job) > 4 else True
+    interactive = bool(job[5]) if len(job) > 5 else False
     out = {"name": name, "expect": expect, "kind": None, "detail": "", "last": None}
 
     def call(w, it, f):
-        ps = w.new_walker(PARSER, w.env)
+        ps = w.new_walker(PARSER, w.env, interactive=True) if interactive else w.new_walker(PARSER, w.env)
         script = it.call(it.getattr(ps, "get_script"), [it.call(ExtRef("io.StringIO"), [text])])
         cmds = _cmd_list(w, it, script)
         try:
@@ -787,6 +788,11 @@ LENIENT = {"assert-non-bool": "assert of a non-Boolean term is recorded as writt
            "use-after-pop": "declarations are global in pySMT: the symbol is still known after the pop"}
 
 
+# scripts whose misreading is a recorded known finding: not repeated for the interactive reader
+KNOWN_MISREAD = {"let-simultaneous", "let-simultaneous-2", "let-nested-shadow", "quoted-numeral-symbol", "quoted-numeral-symbol-unused",
+                 "quoted-bv-literal-symbol"}
+
+
 _IMPORT = {}
 
 
@@ -795,6 +801,13 @@ def import_results(repo, tier="quick"):
     if key not in _IMPORT:
         jobs = [(n, t, "may-reject" if n in MAY_REJECT else "accept") for n, t in import_corpus()] + \
                [(n, t, "lenient" if n in LENIENT else "reject") for n, t in reject_corpus()]
+        # the character-by-character reader of SmtLibParser(interactive=True): the scripts whose reading depends on how
+        # characters are consumed (white space inside literals, comments, quoting), and a sample of the others
+        corp = import_corpus()
+        pick = [(n, t) for n, t in corp if n.startswith(("cr-", "newline-", "quoted", "comment", "string")) or "|" in t or '"' in t]
+        pick += [(n, t) for n, t in corp[::9] if (n, t) not in pick]
+        jobs += [(n + " [interactive reader]", t, "may-reject" if n in MAY_REJECT else "accept", None, False, True)
+                 for n, t in pick if n not in KNOWN_MISREAD]
         first = _import_job(jobs[0])
         _IMPORT[key] = [first] + parallel_map(_import_job, jobs[1:])
     return _IMPORT[key]
